@@ -273,6 +273,10 @@ def cat_units(prefix, pid, qscale, tscale):
         us.append(dict(target=t, quick=dict(args=a, scale=qscale), thorough=dict(args=a, scale=tscale, shards=2)))
     return us
 
+def forms_unit(prefix, pid):
+    a = ['--prefix', prefix, '--property', pid]
+    return dict(target=T('h_forms'), quick=dict(args=a, scale=1.0), thorough=dict(args=a, scale=8.0, shards=4))
+
 def gen_unit(prefix, pid, n_units=16, per=6, scale=2.0):
     """thorough only: fresh expression programs drawn from VERIF_SEED, compiled in parallel."""
     def run(u, tier, res, env):
@@ -336,9 +340,9 @@ PROPS['C05'] = dict(
     assumptions=[EXACT, SAN],
 )
 PROPS['C06'] = dict(
-    units=cat_units('bilinear', 'C06', 1.0, 6.0) + [gen_unit('bilinear', 'C06')],
+    units=cat_units('bilinear', 'C06', 1.0, 6.0) + [forms_unit('bilinear', 'C06'), gen_unit('bilinear', 'C06')],
     rule=EXPR_RULE + 'Oracle (C06): operator pairs (expression i with partner pi(i); identity with itself) x spline pairs by constructed placement class x four (order_a, order_b) combinations per pair; expected value = exact integral of the product of the two interpreted functions (antiderivative in Q); '
-         'zero without common interval; B{O1,O2}(a,b) == B{O2,O1}(b,a); linearity with generated rational alpha, beta and a second operand; ScalarProduct == B{I,I}. Non-trivial: >= 1 common interval and (non-identical windows or different orders or non-identity operators). Kernel parity (odd/even sizes) counted.',
+         'zero without common interval; B{O1,O2}(a,b) == B{O2,O1}(b,a); linearity with generated rational alpha, beta and a second operand; ScalarProduct == B{I,I}. Non-trivial: >= 1 common interval and (non-identical windows or different orders or non-identity operators). Kernel parity (odd/even sizes) counted. Form objects (h_forms.cpp): forms built from NAMED operators (lvalue, const lvalue, local of a function) and evaluated after the variable was reassigned; form(s, s) with one spline object on both sides; two operators of one C++ type with different run-time state (8 families), all against the exact integral.',
     technique='generated C++ expression programs + rapidcheck inputs; oracle = exact antiderivative of the product polynomial, metamorphic relations (swap, bilinearity)',
     engine='exprgen.py + rapidcheck',
     level_text='Exact generated-input search over sampled operator pairs and generated spline pairs with all placements; sampling, not proof.',
@@ -346,9 +350,9 @@ PROPS['C06'] = dict(
     assumptions=[EXACT, SAN],
 )
 PROPS['C07'] = dict(
-    units=cat_units('linform', 'C07', 1.0, 6.0) + [gen_unit('linform', 'C07')],
+    units=cat_units('linform', 'C07', 1.0, 6.0) + [forms_unit('linform', 'C07'), gen_unit('linform', 'C07')],
     rule=EXPR_RULE + 'Oracle (C07): LinearForm{O}(a) == exact integral of the interpreted function over a\'s support (zero for interval-free a), operator() == evaluate(), == LinearForm{}(O a); and for operator pairs and spline pairs of all placements B{O1,O2}(a,b) == LinearForm{}((O1 a)*(O2 b)) == exact integral. '
-         'Non-trivial: >= 1 interval and kernel size >= 2 (linear form); >= 1 common interval (product identity). Both kernel parities counted.',
+         'Non-trivial: >= 1 interval and kernel size >= 2 (linear form); >= 1 common interval (product identity). Both kernel parities counted. Form objects (h_forms.cpp): the product identity with ONE spline object on both sides and same-type operators of different state (8 families); LinearForm built from named operators and evaluated after reassignment.',
     technique='generated C++ expression programs + rapidcheck inputs; oracle = exact integral from the reference model and agreement with the bilinear form',
     engine='exprgen.py + rapidcheck',
     level_text='Exact generated-input search; sampling, not proof.',
